@@ -552,3 +552,68 @@ def check_guarded_growth(db, funcs, rep, rule):
                       "%s enlarges `%s` to `%s` when %s + %s no longer fits, but that is not known to be >= %s + %s: one item longer than the "
                       "added room is written past the end of the buffer" % (f.name, S, unparse(g.c[1]) if g.op == "=" else "%s + %s" % (S, unparse(g.c[1])), used, need, S, need), line=g.line)
     return n
+
+
+ALLOCATORS = {"malloc": 0, "orc_malloc": 0}
+BYTE_POINTEES = ("char", "unsigned char", "signed char", "orc_uint8", "orc_int8", "void", "guint8", "uint8_t")
+
+
+def check_block_offsets(db, funcs, rep, rule):
+    """A pointer computed as  block + E  where block is a local holding the result of malloc(S) with constant S must not lie
+    beyond the end of the block (pointer arithmetic past one-past-the-end is already undefined; every use of such a slot is out
+    of bounds).  E is bounded by interval arithmetic over the enclosing counted loops' index ranges and the declared types."""
+    from interval import interval
+    from loops import counted
+    n = 0
+    for f in funcs:
+        blocks = {}
+        defs = {}
+        for x in f.walk():
+            if x.k == "VarDecl" and x.c and x.c[0] is not None:
+                defs.setdefault(x.name, []).append(x.c[0])
+            elif x.k == "BinaryOperator" and x.op == "=" and strip_casts(x.c[0]) is not None and strip_casts(x.c[0]).k == "DeclRefExpr":
+                defs.setdefault(strip_casts(x.c[0]).name, []).append(x.c[1])
+            elif x.k == "UnaryOperator" and x.op == "&" and strip_casts(x.c[0]) is not None and strip_casts(x.c[0]).k == "DeclRefExpr":
+                defs.setdefault(strip_casts(x.c[0]).name, []).append(None)
+        for nm, ds in defs.items():
+            if len(ds) != 1 or ds[0] is None:
+                continue
+            r = strip_casts(ds[0])
+            if r is not None and r.k == "CallExpr" and r.name in ALLOCATORS:
+                a = r.args()[ALLOCATORS[r.name]]
+                iv = interval(a)
+                if iv is not None and iv[0] == iv[1]:
+                    blocks[nm] = (iv[0], r)
+        if not blocks:
+            continue
+        for x in f.walk():
+            if x.k != "BinaryOperator" or x.op != "+" or "*" not in (x.ty or ""):
+                continue
+            for b, e in ((x.c[0], x.c[1]), (x.c[1], x.c[0])):
+                sb = strip_casts(b)
+                if sb is None or sb.k != "DeclRefExpr" or sb.name not in blocks:
+                    continue
+                # element size of the pointer the addition is performed on (casts between the variable and the `+` count)
+                pt = (b.get("toty") if b.k == "CStyleCastExpr" else b.ty) or ""
+                pointee = pt.replace("const ", "").replace("*", "").strip()
+                if pointee not in BYTE_POINTEES:
+                    continue
+                env = {}
+                p = x.parent
+                while p is not None:
+                    if p.k == "ForStmt":
+                        c = counted(p)
+                        if c and c["first"][0] is None and c["last"][0] is None:
+                            lo, hi = sorted((c["first"][1], c["last"][1]))
+                            env[c["var"]] = (lo, hi)
+                    p = p.parent
+                iv = interval(e, 0, env)
+                size, alloc = blocks[sb.name]
+                n += 1
+                bad = iv is not None and iv[1] > size
+                rep.check(not bad, rule, where(f), "%s+%s" % (sb.name, unparse(e)[:40]),
+                          "offset %s into the %d-byte block `%s` stays inside it" % (iv, size, sb.name),
+                          "`%s + %s` reaches byte offset %s of a block that %s(%s) made only %d bytes long%s: the slot lies outside the allocation" %
+                          (sb.name, unparse(e)[:60], iv[1] if iv else "?", alloc.name, unparse(alloc.args()[0])[:50], size,
+                           " (loop index ranges: %s)" % env if env else ""), line=x.line)
+    return n
